@@ -27,10 +27,18 @@
 //! entries: "-" | comma list of <key>=<value> | #<count-hex> (count generated keys "0","1",.. with empty values)
 //! events:  "-" | comma list of t|s|c|r each optionally *<count-hex>
 //! batch mode: c = value lists through a RawBatchValues implementation writing cell by cell,
-//!             v = Vec<SerializedValues> (the implementation scylla-proxy uses)
-//! Observed: ok <frame-hex> | ok <frame-hex> <decompressed-body-hex|FAIL> (compressed)
-//!         | ok <order> <frame-hex> [..] (STARTUP: map iteration order as entry indices)
+//!             v = Vec<SerializedValues> (the implementation scylla-proxy uses),
+//!             a = RawBatchValuesAdapter::new(BatchValues, one RowSerializationContext per STATEMENT): the way
+//!                 the driver itself (scylla/src/network/connection.rs) hands batch values to Batch
+//!   M <comp> <tr> <len>      make() of a SerializableRequest whose body is <len> untouched zero bytes (sizes only)
+//!   N <serial>               end-to-end: a real Session against mocknode issues session-level calls with known
+//!                            options; the frames the node received are reported next to what was asked
+//! Observed: ok <s> <hdr0> <frame-hex> [<decompressed-body-hex|FAIL>]   where <hdr0> = the 9 header bytes as made,
+//!              <s> = the stream id then given to set_stream, <frame-hex> = get_data() AFTER set_stream(s)
+//!         | ok <order> <s> <hdr0> <frame-hex> [..] (STARTUP: map iteration order as entry indices)
 //!         | err <class ...> | panic
+//!         | len <payload size> <length field> (L, M) | skipped (L: not enough memory)
+//!         | e2e <ext> <asked>:<frame-hex> ... | skip-env <why> (N)
 use scylla_cql::Consistency;
 use scylla_cql::frame::frame_errors::{
     BatchSerializationError, BatchStatementSerializationError, CqlRequestSerializationError,
@@ -47,13 +55,17 @@ use scylla_cql::frame::response::result::cow_bytes::CowBytes;
 use scylla_cql::frame::server_event_type::{EventType, EventTypeV2};
 use scylla_cql::frame::types::SerialConsistency;
 use scylla_cql::frame::{Compression, SerializedRequest, decompress};
-use scylla_cql::serialize::raw_batch::{RawBatchValues, RawBatchValuesIterator};
-use scylla_cql::serialize::row::SerializedValues;
+use scylla_cql::frame::request::RequestOpcode;
+use scylla_cql::serialize::raw_batch::{RawBatchValues, RawBatchValuesAdapter, RawBatchValuesIterator};
+use scylla_cql::serialize::row::{RowSerializationContext, SerializeRow, SerializedValues};
 use scylla_cql::serialize::writers::CellOverflowError;
 use scylla_cql::serialize::{RowWriter, SerializationError};
 use std::borrow::Cow;
 use std::collections::HashMap;
 use vh::*;
+
+#[path = "../c09_e2e.rs"]
+mod e2e;
 
 // ------------------------------------------------------------------ case text -> values
 
@@ -178,6 +190,41 @@ impl<'r> RawBatchValuesIterator<'r> for CellsIter<'r> {
     }
 }
 
+/// one value list as a SerializeRow, for the BatchValues -> RawBatchValuesAdapter path
+struct CellsRow(Vec<Cell>);
+impl SerializeRow for CellsRow {
+    fn serialize(&self, _ctx: &RowSerializationContext<'_>, writer: &mut RowWriter) -> Result<(), SerializationError> {
+        write_cells(&self.0, writer)
+    }
+    fn is_empty(&self) -> bool {
+        self.0.is_empty()
+    }
+}
+
+/// a request whose body is `0` untouched zero bytes (calloc'ed, never written): reaches the size checks of
+/// make / compress_append at the 2^32 boundary without resident memory
+struct Blob(usize);
+impl SerializableRequest for Blob {
+    const OPCODE: RequestOpcode = RequestOpcode::Options;
+    fn serialize(&self, buf: &mut Vec<u8>) -> Result<(), CqlRequestSerializationError> {
+        let keep = buf.len();
+        let mut v = vec![0u8; keep + self.0];
+        v[..keep].copy_from_slice(buf);
+        *buf = v;
+        Ok(())
+    }
+}
+fn run_blob_case(c: Option<Compression>, tr: bool, len: usize) -> String {
+    match SerializedRequest::make(&Blob(len), c, tr) {
+        Err(e) => err_class(&e),
+        Ok(sr) => {
+            let d = sr.get_data();
+            let field = u32::from_be_bytes([d[5], d[6], d[7], d[8]]);
+            format!("len {} {}", hex_u((d.len() - 9) as u128), hex_u(field as u128))
+        }
+    }
+}
+
 fn stmt_err(e: &BatchStatementSerializationError) -> String {
     match e {
         BatchStatementSerializationError::StatementStringSerialization(_) => "string".into(),
@@ -218,14 +265,32 @@ fn err_class(e: &CqlRequestSerializationError) -> String {
     }
 }
 
-/// make + (for compressed frames) the real decompress of the real body
-fn observe<R: SerializableRequest>(req: &R, c: Option<Compression>, tr: bool) -> String {
+/// stream id handed to set_stream: derived from the case text (replays see the same id)
+fn stream_for(case: &str) -> i16 {
+    let mut h: u64 = 0xcbf29ce484222325;
+    for b in case.bytes() {
+        h = (h ^ b as u64).wrapping_mul(0x100000001b3);
+    }
+    match h % 8 {
+        0 => 0,
+        1 => -1,
+        2 => i16::MIN,
+        3 => i16::MAX,
+        _ => (h >> 8) as i16,
+    }
+}
+
+/// make, then set_stream(s), + (for compressed frames) the real decompress of the real body
+fn observe<R: SerializableRequest>(req: &R, c: Option<Compression>, tr: bool, s: i16) -> String {
     match SerializedRequest::make(req, c, tr) {
         Err(e) => err_class(&e),
-        Ok(sr) => {
+        Ok(mut sr) => {
+            let hdr0 = hex_bytes(&sr.get_data()[..9.min(sr.get_data().len())]);
+            sr.set_stream(s);
             let data = sr.get_data();
+            let head = format!("ok {} {} {}", hex_i(s as i128), hdr0, hex_bytes(data));
             match c {
-                None => format!("ok {}", hex_bytes(data)),
+                None => head,
                 Some(alg) => {
                     let d = if data.len() >= 9 {
                         match decompress(&data[9..], alg) {
@@ -235,7 +300,7 @@ fn observe<R: SerializableRequest>(req: &R, c: Option<Compression>, tr: bool) ->
                     } else {
                         "FAIL".into()
                     };
-                    format!("ok {} {}", hex_bytes(data), d)
+                    format!("{} {}", head, d)
                 }
             }
         }
@@ -259,8 +324,21 @@ fn run_case_inner(case: &str) -> String {
     if f[0] == "L" {
         return run_len_case(hx(f[1]) as usize, hx(f[2]) as usize);
     }
+    if f[0] == "N" {
+        let serial = hx(f[1]);
+        let rt = tokio::runtime::Builder::new_multi_thread().worker_threads(2).enable_all().build().unwrap();
+        return match rt.block_on(e2e::run(serial)) {
+            Ok(o) => o,
+            // nothing was observed: the scenario could not run (counted, capped by checks/c09.py)
+            Err(e) => format!("skip-env {}", e.replace(' ', "_")),
+        };
+    }
     let c = comp(f[1]);
     let tr = f[2] == "1";
+    if f[0] == "M" {
+        return run_blob_case(c, tr, hx(f[3]) as usize);
+    }
+    let st = stream_for(case);
     match f[0] {
         "Q" => {
             let text = String::from_utf8(parse_bytes(f[3])).expect("utf8");
@@ -270,11 +348,11 @@ fn run_case_inner(case: &str) -> String {
                 Err(e) => return e,
             };
             let q = Query { contents: Cow::Borrowed(&text), parameters: qparams(&f[4..11], &sv) };
-            observe(&q, c, tr)
+            observe(&q, c, tr, st)
         }
         "P" => {
             let text = String::from_utf8(parse_bytes(f[3])).expect("utf8");
-            observe(&Prepare { query: &text }, c, tr)
+            observe(&Prepare { query: &text }, c, tr, st)
         }
         "E" => {
             let id = parse_bytes(f[4]);
@@ -288,14 +366,14 @@ fn run_case_inner(case: &str) -> String {
                 assert!(mid.is_none(), "Execute v1 has no metadata id");
                 #[allow(deprecated)]
                 let e = scylla_cql::frame::request::Execute { id: id.clone().into(), parameters: qparams(&f[6..13], &sv) };
-                observe(&e, c, tr)
+                observe(&e, c, tr, st)
             } else {
                 let e = ExecuteV2 {
                     id: CowBytes::from(&id[..]),
                     result_metadata_id: mid.as_ref().map(|m| CowBytes::from(&m[..])),
                     parameters: qparams(&f[6..13], &sv),
                 };
-                observe(&e, c, tr)
+                observe(&e, c, tr, st)
             }
         }
         "B" => {
@@ -336,10 +414,17 @@ fn run_case_inner(case: &str) -> String {
                     }
                 }
                 let b = Batch { statements: Cow::Borrowed(&stmts[..]), batch_type, consistency, serial_consistency, timestamp, values: svs };
-                observe(&b, c, tr)
+                observe(&b, c, tr, st)
+            } else if f[3] == "a" {
+                // as the driver does: BatchValues + one context per statement through the adapter
+                let rows: Vec<CellsRow> = vals.iter().map(|l| CellsRow(l.clone())).collect();
+                let contexts = (0..stmts.len()).map(|_| RowSerializationContext::empty());
+                let values = RawBatchValuesAdapter::new(&rows, contexts);
+                let b = Batch { statements: Cow::Borrowed(&stmts[..]), batch_type, consistency, serial_consistency, timestamp, values };
+                observe(&b, c, tr, st)
             } else {
                 let b = Batch { statements: Cow::Borrowed(&stmts[..]), batch_type, consistency, serial_consistency, timestamp, values: CellsBatch(&vals) };
-                observe(&b, c, tr)
+                observe(&b, c, tr, st)
             }
         }
         "S" => {
@@ -367,7 +452,7 @@ fn run_case_inner(case: &str) -> String {
             // the order in which THIS map iterates is the oracle the model is run with
             let order: Vec<u32> = options.iter().map(|(k, _)| index[k.as_ref()] as u32).collect();
             let s = Startup { options };
-            let o = observe(&s, c, tr);
+            let o = observe(&s, c, tr, st);
             match o.strip_prefix("ok ") {
                 Some(rest) => format!("ok {} {}", hex_list(&order), rest),
                 None => o,
@@ -393,7 +478,7 @@ fn run_case_inner(case: &str) -> String {
                         _ => panic!("bad event for Register v1"),
                     })
                     .collect();
-                observe(&Register { event_types_to_register_for: l }, c, tr)
+                observe(&Register { event_types_to_register_for: l }, c, tr, st)
             } else {
                 let l = evs
                     .iter()
@@ -405,13 +490,13 @@ fn run_case_inner(case: &str) -> String {
                         _ => panic!("bad event"),
                     })
                     .collect();
-                observe(&RegisterV2 { event_types_to_register_for: l }, c, tr)
+                observe(&RegisterV2 { event_types_to_register_for: l }, c, tr, st)
             }
         }
-        "O" => observe(&Options, c, tr),
+        "O" => observe(&Options, c, tr, st),
         "A" => {
             let tok = if f[3] == "N" { None } else { Some(parse_bytes(f[3])) };
-            observe(&AuthResponse { response: tok }, c, tr)
+            observe(&AuthResponse { response: tok }, c, tr, st)
         }
         _ => "error unknown-case".into(),
     }
@@ -670,7 +755,7 @@ fn gen_batch(r: &mut Rng) -> String {
         })
         .collect();
     // mode v (Vec<SerializedValues>) cannot carry more than 65535 values per list
-    let mode = if !huge && r.chance(1, 3) { "v" } else { "c" };
+    let mode = if !huge && r.chance(1, 3) { "v" } else if r.chance(1, 2) { "a" } else { "c" };
     format!(
         "B {} {} {} {} {} {} {} {} {}",
         gen_comp(r),
@@ -772,7 +857,7 @@ fn boundary_cases() -> Vec<String> {
         for (ns, nv) in [(0u64, 1u64), (1, 0), (3, 0), (3, 2), (3, 4), (3, 7), (2, 2)] {
             let st = if ns == 0 { "-".to_string() } else { format!("p{}*{:x}", hex_bytes(&[1u8; 4]), ns) };
             let va = if nv == 0 { "0".to_string() } else { format!("n,v02@{:x}", nv) };
-            for m in ["c", "v"] {
+            for m in ["c", "v", "a"] {
                 v.push(format!("B {} 1 {} 0 6 9 10 {} {}", c, m, st, va));
             }
         }
@@ -786,7 +871,15 @@ fn boundary_cases() -> Vec<String> {
     // (needs ~5 GiB for ~3 s; skipped if memory is short)
     v.push("L 3 400".into());
     v.push("L 0 0".into());
-    v.push("L 4 40000000".into());
+    // the 2^32 boundary of make / compress_append(LZ4) / snap without resident memory
+    for len in ["0", "a", "ffffffff", "100000000", "100000005"] {
+        v.push(format!("M n 0 {}", len));
+        v.push(format!("M n 1 {}", len));
+    }
+    for len in ["0", "a", "100000000", "100000005"] {
+        v.push(format!("M l 0 {}", len));
+        v.push(format!("M s 1 {}", len));
+    }
     v
 }
 
@@ -803,7 +896,19 @@ fn main() {
         return;
     }
     let mut r = Rng::new(a.seed);
-    for c in boundary_cases() {
+    let mut fixed = boundary_cases();
+    if a.tier == "thorough" {
+        // a real 4 GiB + 34 byte BATCH body (needs ~5 GiB for ~3 s; reported as skipped if memory is short)
+        fixed.push("L 4 40000000".into());
+    }
+    for c in fixed {
+        let o = run_case(&c);
+        out.case(&c, &o);
+    }
+    // end-to-end: what Session puts into the request structs
+    let n_e2e = if a.tier == "thorough" { 300 } else { 40 };
+    for k in 0..n_e2e {
+        let c = format!("N {:x}", a.seed.wrapping_mul(1000).wrapping_add(k));
         let o = run_case(&c);
         out.case(&c, &o);
     }
